@@ -598,7 +598,9 @@ class C20(Scenario):
         real = run.scan("root") or {}
         evs = [e for e in run.events if e["phase"] == "ops"]
         # the flavour of the moved / created top entry comes from the event itself (lenient)
-        got = run.replay(tree0, evs)
+        unknown = []
+        got = run.replay(tree0, evs, unknown)
+        run.unknown_move_sources = unknown
         if "root" not in run.model.t:
             return None
         if not run.recursive:
@@ -634,6 +636,15 @@ class C20(Scenario):
             d = res["replay"]
             what = ("phantom" if d["phantom"] else "") + ("missing" if d["missing"] else "")
             v.append(Violation("replay", f"C20:{osk}:replay-mismatch:{what}:{'rec' if run.recursive else 'nonrec'}", f"{d}; ops={case['ops']} pre={case['pre']}"))
+        movein_dsts = [op[2] for op in case["ops"] if op[0] in ("movein_file", "movein_tree")]
+        # an entry that was moved in and renamed within one latency window is, for the documented native semantics,
+        # indistinguishable from a plain rename (its records carry no created flag): such sources are excused
+        unknown = [sh for sh in getattr(run, "unknown_move_sources", None) or [] if not any(fm.is_under(sh[2], d) for d in movein_dsts)]
+        if (case["paced"] or case.get("grouped")) and run.recursive and unknown:
+            # the emitter saw complete operations (paced, or a complete group): a moved event's source must be an entry the
+            # stream itself has accounted for (present at start or reported created / moved there) - otherwise a consumer
+            # that mirrors the tree from the stream is told to move something it has never heard of
+            v.append(Violation("replay", f"C20:{osk}:moved-from-unreported-source", f"{unknown[:3]}; ops={case['ops']} pre={case['pre']}"))
         # paced contracts: rename inside, move in, move out
         for c in run.contracts:
             if not (c["drained"] and c["clean_start"]):
